@@ -37,6 +37,9 @@ def run(ctx):
     # "when the server lacks RENAMESCRIPT" is read from the capability table, which must be this connection's (A8 of C10)
     from .c10 import a8
     a8(ctx, R)
+    # the copied content is what the readers make of the GETSCRIPT reply, however it is segmented (M1-M7 of C05)
+    from .c05 import reader_rules
+    reader_rules(ctx, R)
 
 
 def rename_eval(ctx, R):
